@@ -165,4 +165,12 @@ def gen(rng, tier):
         out.append(Scenario(cmds, [False, False, True, True, True, False, False, False, False, True, True], tags=("override-without-value",)))
     # bare keys: no value at all
     out.append(Scenario([gens.parse_cmd(0, b"/d/bare.conf", b"k\nk2=\n[s]\nk3\n", b"=", b"#"), "getall 0"], [False, True], tags=("bare",)))
+    # ... also through the getters that take a default: the default is for a MISSING key; a key without value is
+    # answered with the error code, no number is invented
+    bare = [gens.parse_cmd(0, b"/d/bare2.conf", b"k\nk2=\n[s]\nk3\nk4= \n", b"=", b"#")]
+    for g, k in ((None, b"k"), (None, b"k2"), (b"s", b"k3"), (b"s", b"k4"), (None, b"missing")):
+        for kd, d in (("int", "i:4711"), ("int64", "i:-4711"), ("uint", "i:4711"), ("uint64", "i:4711"), ("bool", "b:1"), ("string", "s:x646566"),
+                      ("float", "f:x34372e35"), ("double", "f:x34372e35")):
+            bare.append("get 0 %s %s %s %s" % (kd, enc(g), enc(k), d))
+    out.append(Scenario(bare, [False] + [True] * (len(bare) - 1), tags=("bare-def",)))
     return out
